@@ -61,7 +61,11 @@ def _cont(vals, kind):
     return np.array(vals) if kind == 'ndarray' else list(vals)
 
 
-def build(kind, oids, chids, tids=None, container='list', t_off=0.0):
+def _phase(t):
+    return 'early' if TAU[t] < 1 else 'late'      # a coarse time label with repeated values
+
+
+def build(kind, oids, chids, tids=None, container='list', t_off=0.0, phase=False):
     from rsatoolbox.data import Dataset, TemporalDataset
     od = {k: _cont([f(o) for o in oids], container) for k, f in OBS_DESC.items()}
     cd = {k: _cont([f(c) for c in chids], container) for k, f in CH_DESC.items()}
@@ -71,6 +75,8 @@ def build(kind, oids, chids, tids=None, container='list', t_off=0.0):
     m = np.array([[[code(o, c, TAU[t]) for t in tids] for c in chids] for o in oids], dtype=float)
     m = m.reshape(len(oids), len(chids), len(tids))
     td = {'time': _cont([TAU[t] + t_off for t in tids], container)}
+    if phase:
+        td['phase'] = _cont([_phase(t) for t in tids], container)
     return TemporalDataset(m, descriptors={'tag': 'sd'}, obs_descriptors=od, channel_descriptors=cd,
                            time_descriptors=td)
 
@@ -314,6 +320,17 @@ def enabled(obj, model):
             n = merge_datasets([o, other])
             return one(n, model, _expect(n, rows + [(5, None), (6, None)], cols, times))
         add(('merge_datasets',), f_merge)
+    # --- merge of the parts of a nested split: the dataset-level descriptors of the parts repeat in
+    #     non-adjacent parts (A, B, A, B) and are promoted to observation descriptors by the merge ------------
+    if {'sess', 'cond'} <= set(model['obs']) and len(rows) >= 3:
+        for by1, by2 in (('sess', 'cond'), ('cond', 'sess')):
+            def f_nested(o, by1=by1, by2=by2):
+                parts = [q for p in o.split_obs(by1) for q in p.split_obs(by2)]
+                if len(parts) < 3:
+                    return one(None, model, [])
+                n = merge_datasets(parts)
+                return one(n, model, _expect(n, rows, cols, times, rows_multiset=True))
+            add(('merge-of-nested-split', by1, by2), f_nested, 'merge_datasets,nested-split')
     # --- odd / even splits ----------------------------------------------------------------------------------
     for by in obs_by:
         if by == 'oid' and len(rows) > 4:
@@ -364,6 +381,31 @@ def enabled(obj, model):
                 ex.append(('split-not-a-partition', 'parts hold times %r of %r' % (got, times)))
             return one(None, model, ex)
         add(('split_time', 'partition'), chk_t)
+        if 'phase' in obj.time_descriptors:
+            # split by a time descriptor with repeated values: each part holds ALL time points of its value
+            ph = [str(v) for v in obj.time_descriptors['phase']]
+            uph = _uniq(ph)
+
+            def chk_phase(o, ph=ph, uph=uph):
+                parts = o.split_time('phase')
+                ex = []
+                if len(parts) != len(uph):
+                    ex.append(('split-not-a-partition', '%d parts for %d phase values' % (len(parts), len(uph))))
+                got = []
+                for p, v in zip(parts, uph):
+                    want_t = [t for t, q in zip(times, ph) if q == v]
+                    er = invariant(p, model) or _expect(p, rows, cols, want_t)
+                    ex += er
+                    if not er:
+                        got += labels(p)[2]
+                if not ex and sorted(got) != sorted(times):
+                    ex.append(('split-not-a-partition', 'parts hold times %r of %r' % (got, times)))
+                return one(None, model, ex)
+            add(('split_time', 'phase', 'partition'), chk_phase, 'split_time,repeated-values')
+            for i in sorted({0, len(uph) - 1}):
+                want_t = [t for t, q in zip(times, ph) if q == uph[i]]
+                add(('split_time', 'phase', i), lambda o, i=i, want_t=want_t:
+                    one((n := o.split_time('phase')[i]), model, _expect(n, rows, cols, want_t)), 'split_time,repeated-values')
         srt = sorted(ut)
         ranges = {(srt[0], srt[-1]), (srt[0], srt[0]), (srt[min(1, len(srt) - 1)], srt[-1])}
         for a, b in sorted(ranges):
@@ -531,6 +573,7 @@ def _initials():
                     out.append(('init:T,o%d,c%d,t%d,%s' % (n_obs, n_ch, n_t, cont), 'T', n_obs, n_ch, n_t, cont))
     out.append(('init:T,o3,c2,t3,list,toff', 'T', 3, 2, 3, 'list'))
     out.append(('init:T,o1,c1,t3,ndarray,toff', 'T', 1, 1, 3, 'ndarray'))
+    out.append(('init:T,o2,c2,t4,list,phase', 'T', 2, 2, 4, 'list'))
     out.append(('init:D,o40,c1,list', 'D', 40, 1, 0, 'list'))
     out.append(('init:T,o40,c1,t1,ndarray', 'T', 40, 1, 1, 'ndarray'))
     return out
@@ -540,7 +583,7 @@ def _make_initial(name):
     for nm, kind, n_obs, n_ch, n_t, cont in _initials():
         if nm == name:
             obj = build(kind, list(range(n_obs)), list(range(n_ch)), list(range(n_t)) if kind == 'T' else None, cont,
-                        t_off=T_OFF if nm.endswith(',toff') else 0.0)
+                        t_off=T_OFF if nm.endswith(',toff') else 0.0, phase=nm.endswith(',phase'))
             model = {'obs': tuple(OBS_DESC), 'ch': tuple(CH_DESC)}
             return (nm, obj, model)
     raise HarnessError('unknown initial state %r' % name)
